@@ -627,7 +627,7 @@ theorem segment_lemma_Fc (e : Expr) (he : Fc e = true) (isFn : Nat → Bool) (c 
   cases hres : Ref.eval n e env rs with
   | ok v rs' =>
     rw [hres] at h
-    obtain ⟨s', ⟨m, k, hk, H⟩, l, rel, -, fr⟩ := h
+    obtain ⟨s', ⟨m, k, hk, H⟩, l, rel, -, fr, -⟩ := h
     exact ⟨s', rel, l.fn, l.pc, l.data, fr.linear, fr.addr, fr.curfunc, k, m, hk, H⟩
   | err rs' =>
     rw [hres] at h
